@@ -35,8 +35,8 @@ theorem store_ok {two : Bool} {Dom : S → Prop} {st st' : St M} {e : Entry M}
       refine ⟨?_, rfl⟩
       intro i p hp ho hh
       have hslot : ({ st with table := st.table.insert (e.hash.toNat % st.tableLen) e } : St M).slot i =
-          if (e.hash.toNat % st.tableLen == i) = true then e else st.slot i := by
-        simp only [St.slot, Std.HashMap.getD_insert]
+          if compare (e.hash.toNat % st.tableLen) i = .eq then e else st.slot i := by
+        simp only [St.slot, Std.TreeMap.getD_insert]
       rw [hslot] at hh ⊢
       show EOK G att (cleanOf two st) p _
       split
@@ -88,6 +88,15 @@ theorem mem_set_cover {α : Type} (a : Array α) (i : Nat) (x y c : α) (hi : a[
       rw [List.getElem?_set_ne hij, List.getElem?_eq_getElem hj, hjc]
     exact List.mem_of_getElem? this
 
+/-- the principal-variation move of the entry, if any, is the move of every child with δ = 0 -/
+def PvInv (cs : List (Child S M)) (pv : Option M) : Prop :=
+  ∀ m, pv = some m → ∀ c ∈ cs, c.data.bounds.delta = 0 → c.move = m
+
+/-- the move stored with a proof for the attacker begins a forced win -/
+def PvGood (G : Game S M) (att : Color) (g : S) (e : Entry M) : Prop :=
+  G.toMove g = att → e.bounds.phi = 0 → ∀ m, e.pv = some m →
+    m ∈ G.moves g ∧ ∃ s', G.apply g m = some s' ∧ PlainWin G att s'
+
 variable [DecidableEq M] (scale : UInt32 → UInt32)
 
 theorem mid_loop_ok {two : Bool} {Dom : S → Prop} (hk : DfpnOK G hash threats att two Dom) (fuel : Nat) :
@@ -96,14 +105,16 @@ theorem mid_loop_ok {two : Bool} {Dom : S → Prop} (hk : DfpnOK G hash threats 
       Dom g → G.over g = none → TableOK G hash att two Dom st → current.hash = hash g →
       EOK G att (cleanOf two st) g current.bounds → bounds.delta.toNat ≤ 2 ^ 30 →
       mid G hash threats scale att fuel st stack g bounds current = .ok (st', e, w) →
-      MidPost (G := G) (hash := hash) (att := att) two Dom g st (hash g) st' e) ∧
+      MidPost (G := G) (hash := hash) (att := att) two Dom g st (hash g) st' e ∧
+        (current.pv = none → PvGood G att g e)) ∧
     (∀ (st : St M) (stack : List (Frame S M)) (g : S) (bounds : PNs) (current : Entry M)
         (children : Array (Child S M)) (lw : UInt64) (st' : St M) (e : Entry M) (w : UInt64),
       Dom g → G.over g = none → TableOK G hash att two Dom st → current.hash = hash g →
       (∀ c ∈ children.toList, ChildOK (G := G) (hash := hash) (att := att) (cleanOf two st) g c) →
-      Cover (G := G) g children.toList → bounds.delta.toNat ≤ 2 ^ 30 →
+      DCover (G := G) g children.toList → bounds.delta.toNat ≤ 2 ^ 30 →
       midLoop G hash threats scale att fuel st stack bounds current children lw = .ok (st', e, w) →
-      MidPost (G := G) (hash := hash) (att := att) two Dom g st (hash g) st' e) := by
+      MidPost (G := G) (hash := hash) (att := att) two Dom g st (hash g) st' e ∧
+        (SameMove children.toList → PvInv children.toList current.pv → PvGood G att g e)) := by
   induction fuel with
   | zero =>
     constructor
@@ -123,12 +134,13 @@ theorem mid_loop_ok {two : Bool} {Dom : S → Prop} (hk : DfpnOK G hash threats 
       · -- thresholds already exceeded
         simp only [Except.ok.injEq, Prod.mk.injEq] at hrun
         obtain ⟨rfl, rfl, _⟩ := hrun
-        exact ⟨ht, fun h => h, hh, hcur⟩
+        exact ⟨⟨ht, fun h => h, hh, hcur⟩, fun hpv _ _ m hm => by rw [hpv] at hm; cases hm⟩
       · split at hrun
         · -- repetition on the path
           simp only [Except.ok.injEq, Prod.mk.injEq] at hrun
           obtain ⟨rfl, rfl, _⟩ := hrun
-          refine ⟨ht.taint rfl rfl, fun _ => rfl, hh, ?_⟩
+          refine ⟨⟨ht.taint rfl rfl, fun _ => rfl, hh, ?_⟩, fun hpv _ _ m hm => by
+            simp only [hpv] at hm; cases hm⟩
           have : ∀ s : St M, s.ghostRep = true → cleanOf two s = false := by
             intro s h; simp [cleanOf, h]
           rw [this _ rfl]
@@ -136,14 +148,14 @@ theorem mid_loop_ok {two : Bool} {Dom : S → Prop} (hk : DfpnOK G hash threats 
         · split at hrun
           · cases hrun
           · rename_i st1 children hgen
-            obtain ⟨hsame, hch, _, hcov⟩ := genChildren_ok hk _ hg (G.moves g) st #[] st1 children
-              (fun m hm => hm) ht (fun c hc => by simp at hc) hgen
+            obtain ⟨hsame, hsm, hch, _, hcov⟩ := genChildren_ok hk _ hg (G.moves g) st #[] st1 children
+              (fun m hm => hm) ht (fun c hc => by simp at hc) (fun c hc => by simp at hc) hgen
             have ht1 : TableOK G hash att two Dom st1 := ht.congr hsame.1 hsame.2.1
             have hcl := hsame.clean two
             split at hrun
             · cases hrun
             · rename_i st2 cur2 lw2 hloop
-              have post := ihLoop st1 stack g bounds current children 1 st2 cur2 lw2 hg ho ht1 hh
+              obtain ⟨post, hpv⟩ := ihLoop st1 stack g bounds current children 1 st2 cur2 lw2 hg ho ht1 hh
                 (by rw [hcl]; exact hch) hcov hb hloop
               split at hrun
               · cases hrun
@@ -160,7 +172,7 @@ theorem mid_loop_ok {two : Bool} {Dom : S → Prop} (hk : DfpnOK G hash threats 
                 obtain ⟨ht4, hg4⟩ := store_ok ht3 (fun p hp hop hhp => by
                   rw [hc3]
                   exact post.eok.transfer hk hg hp ho hop (by rw [hhp, post.hash])) hstore
-                refine ⟨ht4, fun h => ?_, post.hash, ?_⟩
+                refine ⟨⟨ht4, fun h => ?_, post.hash, ?_⟩, fun hnone => hpv hsm (fun m hm => by rw [hnone] at hm; cases hm)⟩
                 · rw [hg4, h3g]; exact post.ghost (by rw [hsame.2.1]; exact h)
                 · have : cleanOf two st4 = cleanOf two st2 := by simp only [cleanOf, hg4, h3g]
                   rw [this]; exact post.eok
@@ -172,7 +184,13 @@ theorem mid_loop_ok {two : Bool} {Dom : S → Prop} (hk : DfpnOK G hash threats 
       split at hrun
       · simp only [Except.ok.injEq, Prod.mk.injEq] at hrun
         obtain ⟨rfl, rfl, _⟩ := hrun
-        exact ⟨ht, fun h => h, hh, hnode⟩
+        refine ⟨⟨ht, fun h => h, hh, hnode⟩, ?_⟩
+        intro _ hpv htm hz m hm
+        obtain ⟨c, hc, hcz⟩ := (computePNs_phi_zero children.toList).mp hz
+        have hcm := hpv m hm c hc hcz
+        have hck := hch c hc
+        subst hcm
+        exact ⟨hck.mem, c.g, hck.app, hck.eok.2.2.1 ((toMove_child hk.alt hk.attWB hck.app).1 htm) hcz⟩
       · rename_i hnex
         -- not exceeded: δ of the node is below the δ-threshold, hence below ∞
         have hdlt : (computePNs children.toList).delta.toNat < 2 ^ 30 := by
@@ -194,7 +212,7 @@ theorem mid_loop_ok {two : Bool} {Dom : S → Prop} (hk : DfpnOK G hash threats 
         split at hrun
         · cases hrun
         · rename_i best cb hsel
-          obtain ⟨hcb, c, hc, hclt, _⟩ := selectChild_spec scale children bounds _ best cb hsel
+          obtain ⟨hcb, c, hc, hclt, hcmin⟩ := selectChild_spec scale children bounds _ best cb hsel
           simp only [hc] at hrun
           have hcm : c ∈ children.toList := by
             rw [← Array.getElem?_toList] at hc
@@ -209,9 +227,12 @@ theorem mid_loop_ok {two : Bool} {Dom : S → Prop} (hk : DfpnOK G hash threats 
           split at hrun
           · cases hrun
           · rename_i st1 newEntry work hmid
-            have post1 := ihMid st _ c.g cb c.data st1 newEntry work hdc hoc ht hck.hash hck.eok hcb hmid
+            obtain ⟨post1, _⟩ := ihMid st _ c.g cb c.data st1 newEntry work hdc hoc ht hck.hash hck.eok hcb hmid
             have hmono := clean_mono (two := two) post1.ghost
-            have post2 : MidPost (G := G) (hash := hash) (att := att) two Dom g st1 (hash g) st' e := by
+            have post2 : MidPost (G := G) (hash := hash) (att := att) two Dom g st1 (hash g) st' e ∧
+                (SameMove (children.setIfInBounds best { c with data := newEntry }).toList →
+                  PvInv (children.setIfInBounds best { c with data := newEntry }).toList (some c.move) →
+                  PvGood G att g e) := by
               refine ihLoop st1 stack g bounds _ _ _ st' e w hg ho post1.table ?_ ?_ ?_ hb hrun
               · exact hh
               · intro c' hc'
@@ -226,6 +247,21 @@ theorem mid_loop_ok {two : Bool} {Dom : S → Prop} (hk : DfpnOK G hash threats 
                 · exact ⟨c', h, hcm'⟩
                 · rw [heq] at hcm'
                   exact ⟨_, h, hcm'⟩
-            exact ⟨post2.table, fun h => post2.ghost (post1.ghost h), post2.hash, post2.eok⟩
+            obtain ⟨post2, hpv2⟩ := post2
+            refine ⟨⟨post2.table, fun h => post2.ghost (post1.ghost h), post2.hash, post2.eok⟩, ?_⟩
+            intro hsm _
+            -- every child with δ = 0 after the update carries the move just searched
+            have hz : ∀ c' ∈ (children.setIfInBounds best { c with data := newEntry }).toList,
+                c'.data.bounds.delta = 0 → c'.move = c.move := by
+              intro c' hc' hcz'
+              rcases mem_set_cases _ _ _ _ hc' with hc' | heq
+              · have hcz : c.data.bounds.delta = 0 := by
+                  have := hcmin c' hc'
+                  rw [u32_eq_zero_iff] at hcz' ⊢
+                  omega
+                exact hsm c' hc' c hcm hcz' hcz
+              · rw [heq]
+            exact hpv2 (fun a ha b hb haz hbz => by rw [hz a ha haz, hz b hb hbz])
+              (fun m hm c' hc' hcz' => by injection hm with hm; rw [← hm]; exact hz c' hc' hcz')
 
 end C06
